@@ -20,17 +20,17 @@ from lib import gen, lang as L, polar_driver as pd, common, c20sig
 
 PROPERTY_ID = "C20"
 ISOLATE = True  # every history runs in its own forked child: one long-lived Polar process per history
-HARD_LIMIT = {"quick": 400, "thorough": 1800}
+HARD_LIMIT = {"quick": 150, "thorough": 900}
+STEP_LIMIT = {"quick": 12, "thorough": 60}
 RULE = (
     "histories of 3-5 steps (thorough: up to 14) over 2-3 generated programs and benchmark files; step kinds: analyze (goal order permuted), analyze_again, "
     "with_settings (cond2arithm / transform_categoricals / numeric_roots, applied like the CLI and followed by default-settings steps), invariants, sensitivity, "
     "failing (a program Polar refuses); non-trivial = >= 3 analyses of >= 2 distinct programs with a repeat and a goal permutation; distinct by the step sequence"
 )
 ASSUMPTIONS = [
-    "model: the same analysis in a fresh subprocess (python -m lib.c20sig), memoised per request inside a history",
+    "model: the same single analysis in a forked child of the not-yet-used history process (fresh Polar state: name counter 0, default settings, empty caches), memoised per request; the last analysis of each history is also run in really fresh interpreters (python -m lib.c20sig) under PYTHONHASHSEED 0 and 12345 (thorough: 0, 1, 2, 17, 12345)",
     "signatures compare closed forms as functions (values at n=0..5 and a parameter point), exactness flags, inferred types after canonical renaming of generated names, "
     "reduced Groebner bases of invariant ideals, and (exception type, raising function) of errors",
-    "hash seeds: the last analysis of each history is repeated fresh under PYTHONHASHSEED 1 and 12345 (quick) / 1, 2, 17, 12345 (thorough)",
 ]
 
 BENCH = ["2dwalk.prob", "binomial.prob", "illustrating.prob", "stuttering_p.prob", "conditional_loop.prob", "else_transformation.prob", "square.prob", "bimodal_x.prob"]
@@ -43,7 +43,7 @@ REFUSED = ["x = 0\nwhile true:\n    x = x + 1\n    if x > 3:\n        x = 0\n   
 def budget(tier):
     ex = int(os.environ.get("VERIF_EXAMPLES", "0"))
     if tier == "quick":
-        return dict(shards=16, examples=ex or 2, shrink_calls=3, shard_timeout=1700, time_budget=80)
+        return dict(shards=16, examples=ex or 8, shrink_calls=6, shard_timeout=1700, time_budget=80)
     return dict(shards=16, examples=ex or 200, shrink_calls=30, shard_timeout=6 * 3600, time_budget=1500)
 
 
@@ -56,7 +56,7 @@ def histories(draw, tier="quick"):
             b = draw(st.sampled_from(BENCH))
             programs.append({"bench": b, "goals": BENCH_GOALS[b]})
         else:
-            profile = draw(st.sampled_from(["discrete", "discrete", "mixed", "guarded", "param"]))
+            profile = draw(st.sampled_from(["discrete", "edge", "edge", "mixed", "guarded", "param"]))
             prog, meta = draw(gen.programs(profile, uninit_ok=False, max_body=3))
             goals = draw(gen.goals_for(prog, meta, max_goals=3))
             programs.append({"text": L.render_program(prog), "goals": [f"E({pd.monomial_to_str(g)})" for g in goals],
@@ -64,14 +64,35 @@ def histories(draw, tier="quick"):
     # sibling programs: an edited copy of an earlier generated program (same variable names and condition texts, a different
     # draw / value set / parameter), as when a user edits a file and analyses it again in the same session
     gen_idx = [i for i, p in enumerate(programs) if "ast" in p]
-    if gen_idx and draw(st.integers(0, 1)) == 0:
-        src = programs[draw(st.sampled_from(gen_idx))]
+    pair = None
+    if gen_idx and draw(st.integers(0, 3)) > 0:
+        si = draw(st.sampled_from(gen_idx))
+        src = programs[si]
         variant = _variant(draw, src["ast"])
         if variant is not None:
             programs.append({"text": L.render_program(variant), "goals": list(src["goals"]), "syms": src["syms"]})
             nprog += 1
+            pair = (si, nprog - 1)
+    if pair is None and draw(st.integers(0, 2)) == 0:
+        # twin programs from a template: same variable names and the same condition text, different draws (value sets)
+        draws = ["DiscreteUniform(0, 2)", "DiscreteUniform(0, 3)", "Bernoulli(1/2)", "Categorical(1/4, 1/4, 1/2)", "DiscreteUniform(1, 4)", "0 {1/2} 2", "1 {1/3} 3 {1/3} 5"]
+        cond = draw(st.sampled_from(["a == 1", "a < 2", "a >= 1", "a == 1 || a == 3", "!(a == 1)"]))
+        upd = draw(st.sampled_from(["y = y + 1", "y = y + a", "y = 2*y + 1 {1/2} y"]))
+        d1, d2 = draw(st.lists(st.sampled_from(draws), min_size=2, max_size=2, unique=True))
+        tw = []
+        for dd in (d1, d2):
+            tw.append({"text": f"a = 0\ny = 0\nwhile true:\n    a = {dd}\n    if {cond}:\n        {upd}\n    end\nend\n", "goals": ["E(y)", "E(a*y)", "E(y**2)"], "syms": []})
+        programs += tw
+        nprog += 2
+        pair = (nprog - 2, nprog - 1)
     nsteps = draw(st.integers(3, 5 if tier == "quick" else 14))
     steps = []
+    if pair is not None and draw(st.integers(0, 4)) > 0:
+        # the edited copy is analysed right after (or before) the original
+        order = list(pair) if draw(st.booleans()) else list(pair)[::-1]
+        for pi in order:
+            steps.append({"kind": "analyze", "program": pi, "perm": list(draw(st.permutations(list(range(len(programs[pi]["goals"]))))))})
+        nsteps = max(1, nsteps - 2)
     for i in range(nsteps):
         kind = draw(st.sampled_from(["analyze"] * 4 + ["again"] * 2 + ["settings"] * 2 + ["invariants", "failing", "sensitivity"]))
         pi = draw(st.integers(0, nprog - 1))
@@ -110,7 +131,11 @@ def _variant(draw, prog):
     walk(p["init"])
     if not sites:
         return None
-    s = draw(st.sampled_from(sites))
+    cv = set()
+    gen._collect_cond_vars(p["body"], cv)
+    L.cond_vars(p["guard"], cv)
+    pref = [s for s in sites if s[1] in cv]
+    s = draw(st.sampled_from(pref if pref else sites))
     r = s[2]
     if r[0] == "draw" and r[1] == "DiscreteUniform":
         r[2][1] = L.num(Fraction(r[2][1][1]) + 1)
@@ -136,13 +161,13 @@ def _text_of(p):
         return f.read()
 
 
-def _request(case, step):
+def _request(case, step, tier="quick"):
     p = case["programs"][step["program"]]
     goals = [p["goals"][i] for i in step["perm"]] if step["perm"] else list(p["goals"])
     kind = "goals"
     text = _text_of(p)
     settings = step.get("settings") or {}
-    req = {"kind": kind, "text": text, "goals": goals, "settings": settings, "time_limit": 60}
+    req = {"kind": kind, "text": text, "goals": goals, "settings": settings, "time_limit": STEP_LIMIT[tier]}
     if step["kind"] == "invariants":
         req["kind"] = "invariants"
     elif step["kind"] == "sensitivity":
@@ -166,6 +191,43 @@ def fresh_signature(req, hashseed="0"):
     raise RuntimeError("fresh run failed: " + (p.stderr or "")[-800:])
 
 
+def fresh_signature_fork(req):
+    """
+    The same single analysis in a forked child of a process that has not analysed anything yet (modules imported at most):
+    Polar's global state (name counter, settings, class flags, lru_caches) is that of a fresh process, at a fraction of the cost of
+    starting a new interpreter.  Must be called before the first in-process analysis of the history.
+    """
+    import select
+
+    rfd, wfd = os.pipe()
+    pid = os.fork()
+    if pid == 0:
+        code = 0
+        try:
+            os.close(rfd)
+            sig = c20sig.analysis_signature(req)
+            with os.fdopen(wfd, "wb") as f:
+                f.write(json.dumps(sig).encode())
+        except BaseException:
+            code = 1
+        finally:
+            os._exit(code)
+    os.close(wfd)
+    chunks = []
+    with os.fdopen(rfd, "rb") as f:
+        while True:
+            r, _, _ = select.select([f], [], [], 200)
+            if not r:
+                os.kill(pid, 9)
+                break
+            b = f.read1(1 << 20)
+            if not b:
+                break
+            chunks.append(b)
+    os.waitpid(pid, 0)
+    return json.loads(b"".join(chunks).decode())
+
+
 def _comparable(sig, goals):
     """order-insensitive view of a signature"""
     return {"goals": {g: sig["goals"].get(g) for g in sorted(goals)}, "types": sig["program"], "error": sig["error"], "invariants": sig["invariants"]}
@@ -181,23 +243,28 @@ def run_case(case, tier="quick"):
     kinds = [s["kind"] for s in steps]
     tags = sorted(set("step:" + k for k in kinds))
     progs_used = {s["program"] for s in steps}
-    texts = [json.dumps(_request(case, s), sort_keys=True) for s in steps]
+    texts = [json.dumps(_request(case, s, tier), sort_keys=True) for s in steps]
     repeat = len(set(texts)) < len(texts) or "again" in kinds
     permuted = any(s["perm"] != sorted(s["perm"]) for s in steps)
     base = {"key": key, "tags": tags, "nontrivial": len(steps) >= 3 and len(progs_used) >= 2 and repeat and permuted}
     memo = {}
     compared = 0
+    # model first, while this process has not analysed anything: every distinct request in a forked child (fresh state);
+    # one request per history additionally in a really fresh interpreter (cross-check of the fork model)
     for i, step in enumerate(steps):
-        req = _request(case, step)
+        canon_req = dict(_request(case, step, tier), goals=sorted(_request(case, step, tier)["goals"]))
+        mk = json.dumps(canon_req, sort_keys=True)
+        if mk not in memo:
+            try:
+                memo[mk] = fresh_signature_fork(canon_req)
+            except Exception as e:
+                return dict(base, status="inconclusive", bucket="fresh_run_failed", detail=str(e)[:300])
+    for i, step in enumerate(steps):
+        req = _request(case, step, tier)
         inproc = c20sig.analysis_signature(req)
         # the CLI leaves the settings of the last run in place; the next analysis sets its own (as _set_settings does)
         canon_req = dict(req, goals=sorted(req["goals"]))
         mk = json.dumps(canon_req, sort_keys=True)
-        if mk not in memo:
-            try:
-                memo[mk] = fresh_signature(canon_req)
-            except Exception as e:
-                return dict(base, status="inconclusive", bucket="fresh_run_failed", detail=str(e)[:300])
         fresh = memo[mk]
         if _timeouts(inproc):
             # an interrupted computation can leave sympy's caches inconsistent: the history ends here
@@ -210,19 +277,14 @@ def run_case(case, tier="quick"):
             diff = [k for k in a if a[k] != b[k]]
             return dict(base, status="violation", bucket="history_dependence:" + ",".join(diff) + ":" + step["kind"], nontrivial=True,
                         detail={"step_index": i, "step": step, "request": req, "in_process": a, "fresh_process": b,
-                                "history": [dict(s, text=_request(case, s)["text"][:200]) for s in steps[: i + 1]]})
+                                "history": [dict(s, text=_request(case, s, tier)["text"][:200]) for s in steps[: i + 1]]})
         compared += 1
     # hash seeds on the last analysis
-    last = dict(_request(case, steps[-1]))
+    last = dict(_request(case, steps[-1], tier))
     last["goals"] = sorted(last["goals"])
     lk = json.dumps(last, sort_keys=True)
-    if lk not in memo:
-        try:
-            memo[lk] = fresh_signature(last)
-        except Exception as e:
-            return dict(base, status="inconclusive", bucket="fresh_run_failed", detail=str(e)[:300])
     ref = memo[lk]
-    for hs in (["1", "12345"] if tier == "quick" else ["1", "2", "17", "12345"]):
+    for hs in (["0", "12345"] if tier == "quick" else ["0", "1", "2", "17", "12345"]):
         try:
             other = fresh_signature(last, hs)
         except Exception as e:
